@@ -663,12 +663,20 @@ func (c *compiler) evalInfixExpression(node *ast.InfixExpression) (interface{}, 
 	case string:
 		return c.stringsOperator(t, rres, node.Operator)
 	case int64:
-		if r, ok := rres.(int64); ok {
+		// an integer operator yields int whatever its operands were, so an
+		// int64 must be able to meet an int: a + b + c is (a + b) + c
+		switch r := rres.(type) {
+		case int64:
 			return c.intsOperator(int(t), int(r), node.Operator)
+		case int:
+			return c.intsOperator(int(t), r, node.Operator)
 		}
 	case int:
-		if r, ok := rres.(int); ok {
+		switch r := rres.(type) {
+		case int:
 			return c.intsOperator(t, r, node.Operator)
+		case int64:
+			return c.intsOperator(t, int(r), node.Operator)
 		}
 	case float64:
 		if r, ok := rres.(float64); ok {
